@@ -1182,6 +1182,9 @@ func propC01(r *Run) {
 	}
 	repeatedNameCases(r, nDup)
 
+	// --- a record teaches the registry a name next to a known one (props_c01_learn.go) ---
+	c01LearnPipeline(r)
+
 	// --- records reached by edit pipelines ------------------------------------------
 	var seqPool []gts.Sequence
 	for _, gb := range append(append([]seqio.GenBank{}, corpus...), pool...) {
